@@ -132,5 +132,24 @@ pub(crate) fn match_column_inputs(
     avalanches
 }
 
+// Verification hooks (read-only wrappers; compiled only with `--cfg alpha_g_verif`).
+#[cfg(alpha_g_verif)]
+pub fn verif_wire_to_pad_column(wire: usize) -> usize {
+    wire_to_pad_column(wire)
+}
+#[cfg(alpha_g_verif)]
+pub fn verif_pad_column_to_wires(pad_column: usize) -> Range<usize> {
+    pad_column_to_wires(pad_column)
+}
+#[cfg(alpha_g_verif)]
+pub fn verif_match_column_inputs(
+    wire_indices: [usize; WIRES_PER_COLUMN],
+    wire_inputs: &[Vec<f64>; WIRES_PER_COLUMN],
+    pad_column_inputs: &[Vec<f64>; TPC_PAD_ROWS],
+) -> Vec<Avalanche> {
+    match_column_inputs(wire_indices, wire_inputs, pad_column_inputs)
+}
+
+
 #[cfg(test)]
 mod tests;
